@@ -167,6 +167,8 @@ pub struct Model {
     pub tam_peer: u16,
     pub bind_out: BTreeMap<u16, Vec<u8>>,
     pub app_alias: BTreeMap<u16, Vec<u8>>,
+    /// `app_alias` as it was before the call being judged
+    pub app_alias_before: BTreeMap<u16, Vec<u8>>,
     pub tam_local: u16,
     pub bind_in: BTreeMap<u16, Vec<u8>>,
     pub bind_in_unknown: bool,
@@ -234,6 +236,7 @@ impl Model {
             tam_peer: 0,
             bind_out: BTreeMap::new(),
             app_alias: BTreeMap::new(),
+            app_alias_before: BTreeMap::new(),
             tam_local: 0,
             bind_in: BTreeMap::new(),
             bind_in_unknown: false,
@@ -324,7 +327,21 @@ impl Model {
         }
         for e in evs {
             match e {
-                Ev::Send { pkt, size, .. } => {
+                Ev::Send { pkt, size, bytes, .. } => {
+                    // what is requested for sending is what the transport writes: exactly one frame, as long as announced
+                    if matches!(pkt, Pkt::Publish { .. } | Pkt::Ack { kind: AckKind::Pubrel, .. }) {
+                        s.hit("S10-sent-publish-or-pubrel-is-one-well-formed-frame");
+                        let framed = crate::refcodec::frame_at(bytes);
+                        let ok = matches!(framed, crate::refcodec::Framed::Frame { total, .. } if total == bytes.len()) && *size == bytes.len();
+                        if !ok {
+                            s.fail(
+                                "C06",
+                                "S10-sent-publish-or-pubrel-is-one-well-formed-frame",
+                                format!("kind={:?};path={}", pkt.kind(), send_path(cx.call, pkt)),
+                                format!("{} requested for sending: {} bytes, size() = {}, Remaining Length frames it as {:?}", pkt.short(), bytes.len(), size, framed),
+                            );
+                        }
+                    }
                     // K2
                     let closing = match pkt {
                         Pkt::Disconnect { .. } => Some("disconnect"),
@@ -341,7 +358,7 @@ impl Model {
                     if pkt.ver() == Ver::V5 && !self.unsynced {
                         if let Some(lim) = self.max_send {
                             s.hit("Z1-sent-size-within-peer-maximum");
-                            if *size as u64 > lim as u64 {
+                            if (*size).max(bytes.len()) as u64 > lim as u64 {
                                 s.fail(
                                     "C14",
                                     "Z1-sent-size-within-peer-maximum",
@@ -529,7 +546,10 @@ impl Model {
         }
         for d in &dropped {
             s.hit("Z2-oversize-stored-dropped-and-released");
+            s.hit("P9-oversize-drop-on-resume-releases-every-dropped-id");
             if !cx.events.iter().any(|e| matches!(e, Ev::Released(i) if *i == d.id)) {
+                // the exchange is gone (nothing will ever complete it): without the release the id is leaked
+                s.fail("C08", "P9-oversize-drop-on-resume-releases-every-dropped-id", format!("stage={:?}", d.kind), format!("stored {} is dropped as oversize on resume (peer Maximum Packet Size {:?}) but its id {} is not released: nothing owns it any more and acquire never returns it; events {}", d.pkt.short(), self.max_send, d.id, evs_short(cx.events)));
                 s.fail("C14", "Z2-oversize-stored-dropped-and-released", String::new(), format!("stored packet id {} exceeds the peer's Maximum Packet Size {:?} but no NotifyPacketIdReleased; events {}", d.id, self.max_send, evs_short(cx.events)));
             }
             self.store.retain(|e| e.id != d.id);
@@ -556,6 +576,7 @@ impl Model {
     // the calls
 
     pub fn on_call(&mut self, call: &Call, events: &[Ev], s: &mut Sink) {
+        self.app_alias_before = self.app_alias.clone();
         let cx = CallCtx { call, events, status_before: self.status };
         match call {
             Call::Send { pkt, .. } => self.on_send(&cx, pkt, s),
@@ -1314,6 +1335,32 @@ impl Model {
             if let Some(p) = in_actual {
                 if !self.store.iter().any(|e| e.id == id && e.kind == kind) {
                     self.store.push(StoreEnt { id, kind, pkt: p.clone() });
+                    // the stored copy is the packet the application handed over: same QoS, RETAIN, payload and properties,
+                    // its full topic (the one the application's alias stands for on THIS connection), no alias
+                    if let (Call::Send { pkt: app @ Pkt::Publish { topic: at, props: aps, qos: aq, retain: ar, payload: apl, ver: Ver::V5, .. }, .. }, Pkt::Publish { topic: st, props: sps, qos: sq, retain: sr, payload: spl, .. }) = (call, p) {
+                        if !self.unsynced {
+                            s.hit("S11-stored-copy-is-the-accepted-packet");
+                            let alias = aps.iter().find_map(|x| if let (P_TA, PVal::U16(a)) = (x.id, &x.val) { Some(*a) } else { None });
+                            let intended: Option<Vec<u8>> = if !at.is_empty() { Some(at.clone()) } else { alias.and_then(|a| self.app_alias_before.get(&a).cloned()) };
+                            let want_props: Vec<Prop> = aps.iter().filter(|x| x.id != P_TA).cloned().collect();
+                            let got_props: Vec<Prop> = sps.iter().filter(|x| x.id != P_TA).cloned().collect();
+                            match intended {
+                                None => {
+                                    s.hit("AL7-alias-only-publish-needs-a-binding-of-this-connection");
+                                    s.fail("C13", "AL7-alias-only-publish-needs-a-binding-of-this-connection", format!("status={:?}", self.status), format!("send({}) was accepted and stored as {} although no PUBLISH of the current connection has bound alias {:?}: the topic comes from an earlier connection's table", app.short(), p.short(), alias));
+                                }
+                                Some(t) => {
+                                    if *st != t {
+                                        s.fail("C06", "S11-stored-copy-is-the-accepted-packet", "what=topic".into(), format!("send({}) stored as {}: the application meant topic {:?}", app.short(), p.short(), String::from_utf8_lossy(&t)));
+                                        s.fail("C13", "AL4-stored-copy-full-topic-no-alias", "where=store;why=wrong-topic".into(), format!("send({}) stored as {}: the application meant topic {:?}", app.short(), p.short(), String::from_utf8_lossy(&t)));
+                                    }
+                                }
+                            }
+                            if sq != aq || sr != ar || spl != apl || got_props != want_props {
+                                s.fail("C06", "S11-stored-copy-is-the-accepted-packet", "what=contents".into(), format!("send({}) stored as {}: QoS, RETAIN, payload or properties differ", app.short(), p.short()));
+                            }
+                        }
+                    }
                 }
             }
         }
